@@ -87,6 +87,23 @@ def make_case(r, root, op):
                     f.write(b"w")
             links.append((os.path.join(wide, "l-out"), "canary-dir"))
             chmods.append(("chmod", wide, r.choice(DIR_MODES)))
+        if r.random() < 0.3:
+            # the directories libcnb itself reads before it decides anything - env files that are links of every kind, an env directory that
+            # is itself a link out of the layer. A layer that cannot be read is an error (nothing touched), never "no layer there"
+            planned = set()
+            for en in r.sample(["env", "env.build", "env.launch", "env.launch/web", "exec.d"], r.randint(1, 3)):
+                ep = os.path.join(ldir, en)
+                if os.path.lexists(ep) or en.split("/")[0] in planned:
+                    continue
+                planned.add(en.split("/")[0])
+                if r.random() < 0.2 and "/" not in en:
+                    links.append((ep, r.choice(["canary-dir", "sib-dir", "abs-canary-dir", "dangling"])))
+                    continue
+                os.makedirs(ep, exist_ok=True)
+                with open(os.path.join(ep, "KEEP.override"), "wb") as f:
+                    f.write(b"v")
+                for j in range(r.randint(0, 2)):
+                    links.append((os.path.join(ep, "L%d.default" % j), r.choice(["dangling", "canary-file", "abs-canary-file", "self", "sib-file", "hard-canary-file"])))
         chmods.append(("chmod", ldir, r.choice([0o755, 0o555, 0o700, 0o311])))
     else:
         tgt = {"link-sibling-dir": "sib/d", "link-canary-dir": "../canary/d", "link-canary-file": "../canary/precious", "link-dangling": "nowhere",
@@ -228,13 +245,19 @@ def run_case(base, idx, seed, op, shim, sh):
         else:
             sh.count("err_results")
             sh.add("error_kinds", rep["detail"][:90] + " | top=" + info["top"])
-            if info["layers_mode"] & 0o200 and info["top"] != "link-dangling":
+            if "ReadLayer" in rep["detail"] and op.startswith("trait-"):
+                # the trait API reads the existing layer (its env directories included) before it decides: a layer it cannot read is reported,
+                # and nothing has been touched (checked above)
+                sh.count("unreadable_layers_reported")
+            elif info["layers_mode"] & 0o200 and info["top"] != "link-dangling":
                 # everything under <layers> belongs to the caller and <layers> is writable: "whatever its contents" the layer can be
                 # deleted (the owner can always re-grant himself the rights); an error here leaves the old layer in place
                 sh.violation("delete-failed:%s" % info["top"].split("-")[0], "%s failed although the caller owns the whole tree and <layers> is writable: %s; modes in the layer: %r"
                              % (what, rep["detail"][:200], info["hostile_modes"]), case)
                 return
-        if nmut == 0:
+        if nmut == 0 and "err" in rep and "ReadLayer" in rep.get("detail", ""):
+            pass        # reported before anything was touched
+        elif nmut == 0:
             sh.inconclusive.append("case %d: the effect tracer saw no mutating call (shim not loaded?)" % idx)
             return
         sh.nontrivial.add((info["top"], tuple(info["link_kinds"]), tuple(info["hostile_modes"]), op, info["layers_mode"]))
